@@ -23,10 +23,12 @@
    completion the driver has not looked at) "op" (owned field of the operation)
    "caller" (handed out) "closed" "leaked".
 
-   Named deviation of the pinned code (genuine, reproduced by harness bin fd_prod):
-     DrvDropDiscardsCqe   io_uring Driver::drop drains the completion queue and drops the
+   Named deviation (genuine, reproduced by harness bin fd_prod), REPAIRED in /repo - the switch
+   FixDrvDrop = FALSE is the old code, kept for the control configs:
+     DrvDropDiscardsCqe   io_uring Driver::drop drained the completion queue and dropped the
                           keys WITHOUT set_result / push_multishot: a descriptor that only
-                          exists as the number in such a CQE is never closed. *)
+                          existed as the number in such a CQE was never closed. Now every drained
+                          completion is handed to its operation first. *)
 EXTENDS Naturals, Sequences, FiniteSets, TLC
 
 CONSTANTS
@@ -34,7 +36,7 @@ CONSTANTS
   Classes,    \* subset of {"accept", "imm", "multi"}: chosen in the initial state (variable Class)
   MaxTrig,    \* connections the harness may make to a multishot listener (one otherwise)
   MaxPoll,    \* polls per program
-  FixDrvDrop  \* TRUE: Driver::drop adopts drained completions (the proposed repair)
+  FixDrvDrop  \* TRUE: Driver::drop adopts drained completions (repaired code); FALSE: the old code
 
 NFd == IF MaxTrig > 1 THEN MaxTrig ELSE 1
 TrigBound(c) == IF c = "multi" THEN MaxTrig ELSE 1
